@@ -637,6 +637,12 @@ func (l *IPFSLog) Join(otherLog iface.IPFSLog, size int) (iface.IPFSLog, error) 
 		if _, ok := l.Next.Get(e.GetHash().String()); ok {
 			mergedHeads[idx] = nil
 		}
+
+		// a head of the other log that was not merged (it carries another
+		// log id) is not an entry of this log: it can't be one of its heads
+		if _, ok := l.Entries.Get(e.GetHash().String()); !ok {
+			mergedHeads[idx] = nil
+		}
 	}
 
 	l.heads = entry.NewOrderedMapFromEntries(mergedHeads)
